@@ -1,5 +1,5 @@
 (** C08 — path coherence and fencing.  Statements only; proofs are in
-    Refs/FenceProofs.v.  All theorems hold for every backend and every state.
+    Refs/FenceProofs.v, Refs/TreeStep.v.  All theorems hold for every backend and every state.
 
     Proved: fencing.  A request through a fid whose path node carries the
     deleted mark is refused by the guard - EINVAL, ENOENT for a walk to a child -
@@ -10,12 +10,12 @@
     that name gets a fresh node that is not deleted.  Tgetattr, Tread/Twrite/
     Tfsync and Tclunk do not read the deleted mark at all (Refs/Model.v:
     do_getattr, do_io, do_clunk).
-    NOT proved in Coq (covered on every run by the differential only: the model,
-    composed with PathFS, is compared with the real server and the Go twin of
-    PathFS step by step, GetAttr through every bound fid after each change, and
-    the server's path tree is dumped and compared, childRefs against
-    childRefNames included): C08_tree_inv, C08_coherent, and C08_notified beyond
-    the statement below (C08_notified_partial). *)
+    Proved for every history and backend: C08_tree_inv (Refs/TreeInv.v, TreeProofs.v, TreeStep.v).
+    PARTIAL (pathB's section at the end; Refs/Coherent*.v, Refs/Notified*.v): C08_coherent,
+    C08_notified.  What is not proved is covered on every run by the differential only: the model,
+    composed with PathFS, is compared with the real server and the Go twin of PathFS step by step,
+    GetAttr through every bound fid after each change, and the server's path tree is dumped and
+    compared, childRefs against childRefNames included. *)
 From Coq Require Import List Arith Bool ZArith.
 From P9V Require Import Refs.Model Refs.PathFS Refs.Cases Refs.RefProofs Refs.FenceProofs.
 From P9V Require Refs.TreeInv Refs.TreeStep.
@@ -138,13 +138,43 @@ From P9V Require Refs.CoherentDefs Refs.CoherentHist Refs.NotifiedDeep.
     g[r] = the inode the File path of fidRef r resolved to at the end of the request that created r
     (bind time).  [coherent s g]: every live, non-fenced fidRef r (owning its File or, for an xattr fid,
     borrowing it) has  resolve fs (path_of (file r)) = Some (g[r]).  Sequential histories from the initial
-    state, PathFS as the only writer (B4), any failure injection.
-    PARTIAL: proved for histories made of every request EXCEPT Tremove, Trename, Trenameat
-    ([CoherentHist.covered]): attach, walk (any depth), clone, create, open, clunk, stop, xattrwalk/create,
-    mkdir/mknod/symlink, link, getattr, setattr, readdir, readlink, read/write/fsync, statfs/lock, and
-    Tunlinkat (the victim subtree becomes fenced and drops out of the claim; re-created names are
-    unaffected).  Missing: the rename cases (same/cross directory, subtree, over an existing target) and
-    Tremove (needs "a non-fenced fidRef has a non-fenced parent", i.e. serverB's tree_closed). *)
+    state, PathFS as the only writer (B4), any WalkGetAttr setting, any failure injection; ALL request kinds:
+    attach, walk, clone, create, open, clunk, stop, xattrwalk/create, mkdir/mknod/symlink, link, getattr-like,
+    I/O, Tunlinkat, Tremove, and Trename / Trenameat in every variant (same or other directory, a leaf or a
+    directory with fidRefs at any depth below it, over an existing target or not).  Rename: PathFS and the
+    node tree undergo the same MOVE (CoherentTree.move_*; B2 comes from PathFS's refusal, CoherentRenFs.b2_paths);
+    the victim subtree is fenced first; level 0 is told target-path/new-name (CoherentRenLoop), every level
+    below parent-path/name in pre-order (NotifiedDeep.notified_below_be + CoherentRenDeep.deep_pure: induction on
+    depth, "when a node is reached every fidRef whose node it is already has the node's path").
+    Hypothesis [tree_closed] after every prefix of the history (serverB's Refs/TreeInv.v: deleted marks are
+    downward closed, no run-time panic of the path-tree code was flagged) - it is the one part of the tree
+    invariant that is not yet a theorem (tree_closed_holds); tree_ok is discharged by C08_tree_inv. *)
+Theorem C08_coherent : forall ops wga inj,
+  (forall pre post, ops = pre ++ post ->
+     P9V.Refs.TreeInv.tree_closed pfs (snd (run pfs pfs_step pre (init_state pfs (pfs_init wga inj))))) ->
+  let r := P9V.Refs.CoherentDefs.run_g ops (init_state pfs (pfs_init wga inj)) [] in
+  P9V.Refs.CoherentDefs.coherent (fst r) (snd r).
+Proof.
+  intros ops wga inj H. apply P9V.Refs.CoherentHist.coherent_history. intros pre post E. split.
+  - apply TreeStep.tree_inv_history.
+  - apply (H pre post E).
+Qed.
+Print Assumptions C08_coherent.
+
+(** the same from serverB's two history propositions, for histories along which the node graph stays acyclic
+    (B2) and no fuelled recursion ran out of fuel *)
+Theorem C08_coherent_from_tree_theorems :
+  P9V.Refs.TreeInv.tree_inv_holds -> P9V.Refs.TreeInv.tree_closed_holds ->
+  forall ops wga inj,
+  (forall pre post, ops = pre ++ post ->
+     P9V.Refs.TreeInv.acyclic pfs (snd (run pfs pfs_step pre (init_state pfs (pfs_init wga inj)))) /\
+     s_oof pfs (snd (run pfs pfs_step pre (init_state pfs (pfs_init wga inj)))) = false) ->
+  let r := P9V.Refs.CoherentDefs.run_g ops (init_state pfs (pfs_init wga inj)) [] in
+  P9V.Refs.CoherentDefs.coherent (fst r) (snd r).
+Proof. exact P9V.Refs.CoherentHist.coherent_history_tree. Qed.
+Print Assumptions C08_coherent_from_tree_theorems.
+
+(** unconditional part (no tree hypothesis): every request kind except Tremove / Trename / Trenameat *)
 Theorem C08_coherent_partial : forall ops wga inj,
   Forall P9V.Refs.CoherentHist.covered ops ->
   let r := P9V.Refs.CoherentDefs.run_g ops (init_state pfs (pfs_init wga inj)) [] in
